@@ -18,7 +18,7 @@ import vlib
 
 LEVEL = "proof"
 
-NASTY = [b"a b", b"q\"uote", b"back\\slash", b"tab\there", b"\xff\xfe\xfd", b"caf\xc3\xa9", b"\xe2\x88\x9e", b"[1]", b"x|y", b"*star*",
+NASTY = [b"100%", b"50%\"off", b"pct%\\back", b"%", b"a b", b"q\"uote", b"back\\slash", b"tab\there", b"\xff\xfe\xfd", b"caf\xc3\xa9", b"\xe2\x88\x9e", b"[1]", b"x|y", b"*star*",
          b"(paren)", b"semi;colon", b"new\nline", b"\x01\x02ctl", b"l" * 300, b"trailing ", b" leading", b"'single'", b"#hash", b"$var",
          b"^{tree}", b"a:b", b"..", b"@{0}", b"\x7f", b"100%_done", b"a%sb%d", b"%%", b"%!s(MISSING)", b"{0}", b"\\n"]
 
@@ -44,7 +44,8 @@ def gen_named(rng, lf_ok=True, force=None):
                                b"refs/heads/" + b"n" * 200, b"refs/heads/wide\xc2\xa0name", b"refs/heads/ls\xe2\x80\xa8sep",
                                b"refs/heads/ideo\xe3\x80\x80space", b"refs/heads/nel\xc2\x85x", b"refs/heads/en\xe2\x80\x82quad",
                                b"refs/heads/rel-50%stable", b"refs/heads/%d%s%v", b"refs/heads/trail\xc2\xa0", b"refs/heads/trail\xe3\x80\x80",
-                               b"refs/heads/\xc2\x85lead"]), c2))
+                               b"refs/heads/\xc2\x85lead", b"refs/heads/rate-100%", b"refs/heads/%"]), c2))
+    s.star_path = star          # the name under which the biggest blob sits: it ends the description of max_blob_size_blob
     if rng.random() < 0.3:
         s.refs.append((rng.choice([b"refs/tags/thin\xe2\x80\x89sp", b"refs/notes/nb\xc2\xa0sp", b"refs/remotes/o/fig\xe2\x80\x87sp"]), c))
     s.refs.append((b"refs/tags/v2", g2))
@@ -194,6 +195,16 @@ def run(ctx):
                         if ks != exp:
                             res.violations.append(vlib.Violation("JSON key set differs from the plain-name twin", inp,
                                                                  expected=sorted(exp - ks), observed=sorted(ks - exp)))
+                        # the names arrive unharmed: the biggest blob's description ends in the hostile name it sits under, the
+                        # reference it was reached from starts it (bytes that are not UTF-8 become U+FFFD in JSON)
+                        if ns == "full" and not explicit:
+                            cit = j.get("max_blob_size_blob") if len(fmt) == 1 else (j.get("maxBlobSize", {}).get("objectDescription"))
+                            tail = "/" + getattr(sc, "star_path", b"").decode("utf-8", "replace")
+                            refn = sorted(n for n, _ in sc.refs)[0].decode("utf-8", "replace")
+                            body = (cit.partition(" (")[2][:-1] if len(fmt) == 1 else cit) if cit else None
+                            if body is None or not body.endswith(tail) or not body.startswith(refn + ":"):
+                                res.violations.append(vlib.Violation("a name does not arrive unchanged in the JSON report", inp,
+                                                                     expected="<%s>:<dir>%s" % (refn, tail), observed=body))
                     else:
                         probs = check_table(out)
                         if probs:
